@@ -869,7 +869,7 @@ int main(int argc, char** argv) {
       if (i % 4 == 0) bw_history(r, false);
       if (i % 4 == 1) bit_history(r);
     }
-    if (quick ? shard == 0 : true) big_history(r, quick ? (int)(seed % 3) : shard);
+    if (quick ? shard == 0 : shard < 4) big_history(r, quick ? (int)(seed % 3) : shard);
     if (shard == 0) {
       // every writer accessor x single-lane patterns, read back by the specification from the bytes
       for (auto& a : W) {
